@@ -4,3 +4,6 @@
 set -eu
 cd "$(dirname "$0")/.."
 tools/build_harness.sh
+# the fuzz targets and the build without sanitizers (memcheck tier) are needed by C12 only; building them here keeps the first C12 run short
+tools/build_fuzz.sh >/dev/null
+HARNESS_VARIANT=plain tools/build_harness.sh >/dev/null
